@@ -352,10 +352,16 @@ func (p *Peer) pushLogToReplicators(lg event.Update) {
 
 	p.server.mu.Lock()
 	reps, exists := p.server.replicators[lg.CollectionID]
+	// The peers are copied while the lock is held, the set may be modified (by a replicator
+	// being added or removed) as soon as the lock is released.
+	peerIDs := make([]peer.ID, 0, len(reps))
+	for pid := range reps {
+		peerIDs = append(peerIDs, pid)
+	}
 	p.server.mu.Unlock()
 
 	if exists {
-		for pid := range reps {
+		for _, pid := range peerIDs {
 			go func(peerID peer.ID) {
 				if err := p.server.pushLog(lg, peerID); err != nil {
 					log.ErrorE(
